@@ -44,13 +44,22 @@ namespace
     auto tv = [&](Index i) { VT t; for(int j = 0; j < BS; ++j) t[j] = DT(ref.nu[i][size_t(j)]); return t; };
     if(order == ORD_DEFAULT) return SlipFilter<DT, Index, BS>();
     SlipFilter<DT, Index, BS> f{Index(n), Index(n)};
-    if(order == ORD_ASC) for(auto& e : ref.nu) f.add(e.first, tv(e.first));
-    if(order == ORD_DESC) for(auto it = ref.nu.rbegin(); it != ref.nu.rend(); ++it) f.add(it->first, tv(it->first));
+    std::vector<Index> asc; for(auto& e : ref.nu) asc.push_back(e.first);
     if(order == ORD_DUP)
     {
       for(auto& e : ref.nu) { VT d(DT(0)); d[0] = DT(5); f.add(e.first, d); }
       for(auto it = ref.nu.rbegin(); it != ref.nu.rend(); ++it) f.add(it->first, tv(it->first));
     }
+    else if(order == ORD_INCR)
+    {
+      const size_t half = asc.size() / 2;
+      for(size_t q = asc.size(); q-- > half;) f.add(asc[q], tv(asc[q]));
+      DenseVectorBlocked<DT, Index, BS> scratch(Index(n), DT(1));
+      f.filter_rhs(scratch); f.filter_def(scratch);
+      for(size_t q = 0; q < half; ++q) f.add(asc[q], tv(asc[q]));
+    }
+    else
+      for(Index i : add_order(asc, order)) f.add(i, tv(i));
     return f;
   }
 
@@ -72,22 +81,26 @@ namespace
   void slip_vectors(verif::Ctx& c, const std::string& kname)
   {
     const int N = c.thorough ? 5 : 4;
-    for(int n = 0; n <= N; ++n) for(unsigned S = 0; S < (1u << n); ++S) for(int order = 0; order < NUM_ORD; ++order) for(int nv = 0; nv < 6; ++nv) for(int op = 0; op < 4; ++op)
+    for(int n = 0; n <= N; ++n) for(unsigned S = 0; S < (1u << n); ++S) for(int order = 0; order < NUM_ORD; ++order) for(int fd = 0; fd < FD_CONVERT; ++fd) for(int nv = 0; nv < 6; ++nv) for(int op = 0; op < 4; ++op)
     {
       if(order == ORD_ARRAY) continue;
       if(order == ORD_DEFAULT && S != 0) continue;
-      if(order == ORD_DUP && S == 0) continue;
+      if((order == ORD_DUP || order == ORD_SCRAMBLED || order == ORD_INCR) && S == 0) continue;
+      if(fd != FD_NONE && !(order == ORD_DESC && n <= 3 && nv < 2)) continue;
       if(S == 0 && nv != 0) continue;
       if(!c.want()) continue;
       c.desc([&]{ return kname + " blocks=" + std::to_string(n) + " constrained=" + set_name(S, n) + " built by: " + ord_name[order] + " normals#" + std::to_string(nv) + " op=" + fop_name[op]; });
-      RSlip ref;
-      auto f = make_slip<DT, BS>(n, S, order, nv, ref);
-      const auto st0 = sv_state(f.get_filter_vector());
+      RSlip ref, rtwin, rother;
+      std::vector<std::shared_ptr<void>> keep;
+      auto f = derive_filter(make_slip<DT, BS>(n, S, order, nv, ref), fd, keep, [&]{ return make_slip<DT, BS>(n, ~S & ((1u << n) - 1u), ORD_ASC, 1, rother); });
       DenseVectorBlocked<DT, Index, BS> v{Index(n)};
       for(int i = 0; i < n * BS; ++i) v.template elements<Perspective::pod>()[i] = DT(xval(Index(i), 2));
+      // the filter operation is the first access to the freshly built (unsorted) filter
       check_vec(c, kname, f, v, op, [&](Ref& r) { ref.template apply<DT>(r, op); }, slip_cons<DT>(c, ref));
-      c.check(sv_state(f.get_filter_vector()) == st0, kname + ": filter modified by application", "index/normal arrays of the filter changed");
-      if(S != 0) c.nontrivial(verif::Hash().str(kname).pod(n).pod(S).pod(order).pod(nv).pod(op).get());
+      auto twin = make_slip<DT, BS>(n, S, order == ORD_DEFAULT ? ORD_DEFAULT : ORD_ASC, nv, rtwin);
+      c.check(order == ORD_DEFAULT || sv_state(f.get_filter_vector()) == sv_state(twin.get_filter_vector()), kname + ": filter modified by application", "index/normal arrays of the filter differ from those of an identically specified filter");
+      if(fd != FD_NONE) c.count("cases_on_derived_filters");
+      if(S != 0) c.nontrivial(verif::Hash().str(kname).pod(n).pod(S).pod(order).pod(fd).pod(nv).pod(op).get());
       c.outcome("slip vector");
     }
   }
@@ -125,34 +138,72 @@ namespace
     };
   }
 
+  /// builds a scalar mean filter of data type DX for weight variant wv
+  template<typename DX>
+  MeanFilter<DX, Index> build_mean(int n, int wv, LD sol_mean, int ctor, RMean* ref)
+  {
+    typedef DenseVector<DX, Index> Vec;
+    RMean tmp; RMean& r = ref ? *ref : tmp;
+    mean_weights(wv, size_t(n), r.prim, r.dual);
+    r.sol_mean = sol_mean;
+    r.vol = 0; for(int i = 0; i < n; ++i) r.vol += r.prim[size_t(i)] * r.dual[size_t(i)];
+    r.empty = (ctor == 2 || n == 0);
+    r.exact = is_pow2(r.vol);
+    Vec p{Index(n)}, d{Index(n)};
+    for(int i = 0; i < n; ++i) { p.elements()[i] = DX(r.prim[size_t(i)]); d.elements()[i] = DX(r.dual[size_t(i)]); }
+    if(ctor == 0) return MeanFilter<DX, Index>(std::move(p), std::move(d), DX(r.sol_mean));
+    if(ctor == 1) return MeanFilter<DX, Index>(std::move(p), std::move(d), DX(r.sol_mean), DX(r.vol));
+    return MeanFilter<DX, Index>();
+  }
+
   template<typename DT>
   void mean_vectors(verif::Ctx& c, const std::string& kname)
   {
     typedef DenseVector<DT, Index> Vec;
+    typedef MeanFilter<DT, Index> MF;
+    typedef typename std::conditional<std::is_same<DT, double>::value, float, double>::type DT2;
     const int N = c.thorough ? 12 : 8;
-    for(int n = 0; n <= N; ++n) for(int wv = 0; wv < 4; ++wv) for(int sm = 0; sm < 2; ++sm) for(int ctor = 0; ctor < 3; ++ctor) for(int op = 0; op < 4; ++op)
+    for(int n = 0; n <= N; ++n) for(int wv = 0; wv < 4; ++wv) for(int sm = 0; sm < 3; ++sm) for(int ctor = 0; ctor < 3; ++ctor) for(int fd = 0; fd < NUM_FD; ++fd) for(int pre = 0; pre < 2; ++pre) for(int op = 0; op < 4; ++op)
     {
       if(ctor == 2 && (wv != 0 || sm != 0)) continue; // default-constructed (empty) filter on a vector of length n
       if(n == 0 && ctor == 1) continue;               // explicit volume 0 is not a legal argument
+      if(fd != FD_NONE && (ctor != 0 || n > 4 || n == 0 || pre != 0 || sm == 2)) continue;
       if(!c.want()) continue;
-      c.desc([&]{ return kname + " n=" + std::to_string(n) + " weights#" + std::to_string(wv) + " sol_mean=" + (sm ? "1.5" : "0") + " ctor=" + (ctor == 0 ? "computed volume" : ctor == 1 ? "explicit volume" : "default (empty)") + " op=" + fop_name[op]; });
+      const LD solm = sm == 0 ? LD(0) : sm == 1 ? LD(1.5) : LD(1);
+      c.desc([&]{ return kname + " n=" + std::to_string(n) + " weights#" + std::to_string(wv) + " sol_mean=" + fmt(double(solm)) + " ctor=" + (ctor == 0 ? "computed volume" : ctor == 1 ? "explicit volume" : "default (empty)")
+        + " filter=" + fd_name[fd] + (pre ? " (applied to another vector before)" : "") + " op=" + fop_name[op]; });
       std::vector<RMean> refs(1);
       RMean& ref = refs[0];
-      mean_weights(wv, size_t(n), ref.prim, ref.dual);
-      ref.sol_mean = sm ? LD(1.5) : LD(0);
-      ref.vol = 0; for(int i = 0; i < n; ++i) ref.vol += ref.prim[size_t(i)] * ref.dual[size_t(i)];
-      ref.empty = (ctor == 2 || n == 0);
-      ref.exact = is_pow2(ref.vol);
-      Vec p{Index(n)}, d{Index(n)}, v{Index(n)};
-      for(int i = 0; i < n; ++i) { p.elements()[i] = DT(ref.prim[size_t(i)]); d.elements()[i] = DT(ref.dual[size_t(i)]); v.elements()[i] = DT(xval(Index(i), 4)); }
-      MeanFilter<DT, Index> f;
-      if(ctor == 0) f = MeanFilter<DT, Index>(std::move(p), std::move(d), DT(ref.sol_mean));
-      else if(ctor == 1) f = MeanFilter<DT, Index>(std::move(p), std::move(d), DT(ref.sol_mean), DT(ref.vol));
+      std::vector<std::shared_ptr<void>> keep;
+      MF f; MF* srcp = nullptr;
+      if(fd == FD_CONVERT)
+      {
+        auto src = std::make_shared<MeanFilter<DT2, Index>>(build_mean<DT2>(n, wv, solm, ctor, &ref)); keep.push_back(src);
+        f = build_mean<DT>(n, wv + 1, LD(0.5), 0, nullptr);
+        f.convert(*src);
+      }
+      else
+        f = derive_filter(build_mean<DT>(n, wv, solm, ctor, &ref), fd, keep, [&]{ return build_mean<DT>(n, wv + 1, LD(0.5), 0, nullptr); }, &srcp);
       if(ctor != 2) c.check(LD(f.get_volume()) == ref.vol, kname + ": volume", "stored volume differs from prim.dual");
+      if(pre)
+      {
+        // re-invocation: the same filter object was applied (other operation, other vector) before
+        Vec w{Index(n)}; for(int i = 0; i < n; ++i) w.elements()[i] = DT(xval(Index(i), 9));
+        apply_op(f, w, (op + 1) % 4); apply_op(f, w, (op + 2) % 4);
+      }
+      Vec v{Index(n)};
+      for(int i = 0; i < n; ++i) v.elements()[i] = DT(xval(Index(i), 4));
       const std::vector<DT> p0 = flat_of(f.get_vec_prim()), d0 = flat_of(f.get_vec_dual());
       check_vec(c, kname, f, v, op, [&](Ref& r) { ref.template apply<DT>(r, op); }, mean_cons<DT>(c, refs, op));
       c.check(flat_of(f.get_vec_prim()) == p0 && flat_of(f.get_vec_dual()) == d0, kname + ": filter modified by application", "weight vectors changed");
-      if(!ref.empty) c.nontrivial(verif::Hash().str(kname).pod(n).pod(wv).pod(sm).pod(ctor).pod(op).get());
+      if(srcp != nullptr)
+      {
+        Vec w{Index(n)}; for(int i = 0; i < n; ++i) w.elements()[i] = DT(xval(Index(i), 5));
+        check_vec(c, kname + " [source of the derived filter]", *srcp, w, op, [&](Ref& r) { ref.template apply<DT>(r, op); }, mean_cons<DT>(c, refs, op));
+      }
+      if(!ref.empty) c.nontrivial(verif::Hash().str(kname).pod(n).pod(wv).pod(sm).pod(ctor).pod(fd).pod(pre).pod(op).get());
+      if(fd != FD_NONE) c.count("cases_on_derived_filters");
+      if(pre) c.count("cases_on_previously_used_filters");
       c.outcome(std::string("mean ") + (ref.empty ? "empty" : ref.exact ? "exact" : "rounded"));
     }
   }
@@ -188,6 +239,14 @@ namespace
       MeanFilterBlocked<DT, Index, BS> f;
       if(ctor == 0) f = MeanFilterBlocked<DT, Index, BS>(std::move(p), std::move(d), smv);
       else if(ctor == 1) f = MeanFilterBlocked<DT, Index, BS>(std::move(p), std::move(d), smv, volv);
+      // derived object / re-invocation, rotating with the coordinates: deep clone, shallow clone, previously used filter
+      if(ctor != 2 && n > 0 && (n + wv + op) % 3 == 0) { MeanFilterBlocked<DT, Index, BS> g = f.clone((n + wv) % 2 ? CloneMode::Deep : CloneMode::Shallow); f = std::move(g); c.count("cases_on_derived_filters"); }
+      if((n + wv + sm + op) % 2 == 1)
+      {
+        Vec w{Index(n)}; for(int i = 0; i < n * BS; ++i) w.template elements<Perspective::pod>()[i] = DT(xval(Index(i), 9));
+        apply_op(f, w, (op + 1) % 4); apply_op(f, w, (op + 2) % 4);
+        c.count("cases_on_previously_used_filters");
+      }
       const std::vector<DT> p0 = flat_of(f.get_vec_prim()), d0 = flat_of(f.get_vec_dual());
       check_vec(c, kname, f, v, op, [&](Ref& r) { for(auto& m : refs) m.template apply<DT>(r, op); }, mean_cons<DT>(c, refs, op));
       c.check(flat_of(f.get_vec_prim()) == p0 && flat_of(f.get_vec_dual()) == d0, kname + ": filter modified by application", "weight vectors changed");
